@@ -195,6 +195,8 @@ class Exec(StmtMixin, CallMixin):
                     return fl.FNAN
                 if a == "inf":
                     return fl.FPINF
+                if a == "newaxis":
+                    return None
                 if a in ("float32", "float64", "int16", "int64", "uint16", "uint32", "int32", "bool_"):
                     return SFunc(name="numpy." + a)
             if base.path == "math":
@@ -311,8 +313,9 @@ class Exec(StmtMixin, CallMixin):
         a = self.eval(n.left, st)
         b = self.eval(n.right, st)
         op = BINOPS[type(n.op)]
-        if isinstance(a, str) and isinstance(b, str) and op == "+":
-            return a + b
+        if isinstance(a, (str, SStr)) and isinstance(b, (str, SStr)) and op == "+":
+            from .vals import str_cat
+            return str_cat(a, b)
         if isinstance(a, (SList, tuple)) and isinstance(b, (SList, tuple)) and op == "+":
             if isinstance(a, tuple):
                 return a + tuple(b)
